@@ -9,6 +9,11 @@ little-endian bytes, computed independently in `spec` -/
 def model (L : Layout) (op : String) (args : List String) : Option String :=
   match op, args with
   | "encode", [a] => a.toInt?.map fun a => hex (encode L a)
+  | "encode_using", [a] => a.toInt?.map fun a => hex (encode L a)
+  | "encode_to", [a] => a.toInt?.map fun a => hex (encode L a)
+  | "encode_ref", [a] => a.toInt?.map fun a => hex (encode L a)
+  | "encode_pair", [a] => a.toInt?.map fun a => hex (encode L a ++ encode L a)
+  | "encode_size_hint_ok", [_] => some "1"
   | "int_encode", [a] => a.toInt?.map fun a => hex (leBytes (L.n / 8) (toU L.n a))
   | "encoded_size", [a] => a.toInt?.map fun a => toString (encodedSize L a)
   | "max_encoded_len", [] => some (toString (maxEncodedLen L))
@@ -34,6 +39,10 @@ def leBytesSigned : Nat → Int → List Nat
 def spec (L : Layout) (op : String) (args : List String) : Option String :=
   match op, args with
   | "encode", [a] => a.toInt?.map fun a => hex (leBytesSigned (L.n / 8) a)
+  | "encode_using", [a] => a.toInt?.map fun a => hex (leBytesSigned (L.n / 8) a)
+  | "encode_to", [a] => a.toInt?.map fun a => hex (leBytesSigned (L.n / 8) a)
+  | "encode_ref", [a] => a.toInt?.map fun a => hex (leBytesSigned (L.n / 8) a)
+  | "encode_pair", [a] => a.toInt?.map fun a => hex (leBytesSigned (L.n / 8) a ++ leBytesSigned (L.n / 8) a)
   | "int_encode", [a] => a.toInt?.map fun a => hex (leBytesSigned (L.n / 8) a)
   | "to_le_bytes", [a] => a.toInt?.map fun a => hex (leBytesSigned (L.n / 8) a)
   | "to_ne_bytes", [a] => a.toInt?.map fun a => hex (leBytesSigned (L.n / 8) a)
